@@ -99,7 +99,14 @@ def variants_of_tokens(toks, rng, max_subsets):
         yield tuple(sorted(sub)), seps, ''.join(out)
 
 
+class RunawayInsertion(Exception):
+    pass
+
+
 class AsiLog(object):
+    limit = 10 ** 9
+    text_len = 0
+
     """wrappers on the real lexer: every synthetic semicolon is recorded"""
 
     def __init__(self, ctx):
@@ -115,6 +122,10 @@ class AsiLog(object):
             ctx.hit('create_semi_token')
             orig = args[1] if len(args) > 1 else kwargs.get('orig_token')
             self.events.append(None if orig is None else orig.lexpos)
+            if len(self.events) > self.limit:
+                # more semicolons than the text has characters: insertion without end (empty statement after
+                # empty statement); stopped here, reported by the caller
+                raise RunawayInsertion('%d semicolons inserted into a text of %d characters' % (len(self.events), self.text_len))
 
         def after_auto(snap, result, args, kwargs):
             ctx.hit('auto_semi')
@@ -204,6 +215,7 @@ def selfcheck(ctx):
 
 def check(ctx, log, text, key, nontrivial, origin, sample=None):
     log.reset()
+    log.limit, log.text_len = 4 * len(text) + 50, len(text)
     s = work.both(text)
     ctx.hit('parse')
     events = list(log.events)
